@@ -173,6 +173,32 @@ theorem castFrame_plane (st : Stored) (wf : WfStack st) (d : DType) (k s : Nat)
 
 
 
+theorem joinRows_frame_mem (frames : List SFrame) (chan : List (Nat × Nat)) (k : Nat) (r : SFrame × Nat)
+    (hr : r ∈ joinRows frames chan k) : r.1 ∈ frames := by
+  unfold joinRows at hr
+  obtain ⟨f, hf, hrf⟩ := List.mem_flatMap.mp hr
+  obtain ⟨c, _, rfl⟩ := List.mem_map.mp hrf
+  exact (List.mem_filter.mp hf).1
+
+/-- the output range check of the frame transform passes on well-formed frames whose bound fits the dtype -/
+theorem stack_range_ok (st : Stored) (wf : WfStack st) (d : DType) (chan : List (Nat × Nat)) (keys : List Nat)
+    (hd : rangeCheckActive st.bitsStored d = true →
+      ((if st.type = .fractional then st.mfv else 1 : Nat) : Int) ≤ d.maxVal) :
+    (keys.all fun k => (joinRows st.frames chan k).all fun r => frameInRange st.bitsStored d r.1) = true := by
+  rw [List.all_eq_true]; intro k _
+  rw [List.all_eq_true]; intro r hr
+  unfold frameInRange
+  by_cases ha : rangeCheckActive st.bitsStored d = true
+  · have hfm := joinRows_frame_mem _ _ _ _ hr
+    have : (r.1.pix.all fun p => decide ((p : Int) ≤ d.maxVal)) = true := by
+      rw [List.all_eq_true]; intro p hp
+      have h1 := wf.range r.1 hfm p hp
+      have h2 := hd ha
+      have : ((p : Nat) : Int) ≤ ((if st.type = .fractional then st.mfv else 1 : Nat) : Int) := by exact_mod_cast h1
+      simp; omega
+    simp [this]
+  · simp [ha]
+
 theorem stackRead_stacked (st : Stored) (rq : Req) (d : DType) (wf : WfStack st) (hc : rq.combine = false)
     (hcap : ceiling st rq ≤ d.maxVal) (hfl : willRescale st rq = true → d.isFloat = true) :
     stackRead st rq d (willRescale st rq) =
@@ -192,7 +218,14 @@ theorem stackRead_stacked (st : Stored) (rq : Req) (d : DType) (wf : WfStack st)
     have hfloat := hfl hw
     simp only [hw, hfloat, Bool.not_true, Bool.and_false, Bool.false_eq_true, ↓reduceIte, hresc, hfrac, Bool.and_self]
     have h8 : DType.ofCode 8 = some .u8 := rfl
-    simp only [h8]
+    have hrg : (!rq.keys.all fun k => (joinRows st.frames (chanTable rq.segs none) k).all
+        fun r => frameInRange st.bitsStored .u8 r.1) = false := by
+      rw [stack_range_ok st wf .u8 _ _ (by
+        intro ha
+        have hb := wf.bits
+        unfold rangeCheckActive at ha
+        simp [hb] at ha)]; rfl
+    simp only [h8, hrg, Bool.false_eq_true, ↓reduceIte]
     have hrows : ∀ k, stackRow .u8 st.npix rq.segs.length (joinRows st.frames (chanTable rq.segs none) k) =
         rq.segs.map fun s => (segPlane st k s).map Int.ofNat := by
       intro k
@@ -232,27 +265,30 @@ theorem stackRead_stacked (st : Stored) (rq : Req) (d : DType) (wf : WfStack st)
     have hw' : willRescale st rq = false := by simpa using hw
     have hrf : (rq.rescale && st.type == SegType.fractional) = false := by
       unfold willRescale at hw'; simpa [hc] using hw'
-    simp only [hw', Bool.false_and, Bool.false_eq_true, ↓reduceIte, ofCode_code, hrf, pure, Except.pure]
+    have hbound : ((if st.type = .fractional then st.mfv else 1 : Nat) : Int) ≤ d.maxVal := by
+      unfold ceiling at hcap
+      simp only [hc, Bool.false_eq_true, ↓reduceIte] at hcap
+      by_cases hty : st.type = .fractional
+      · have hfrac : (st.type == SegType.fractional) = true := by simpa using hty
+        have hnr : rq.rescale = false := by
+          cases h : rq.rescale
+          · rfl
+          · rw [h, hfrac] at hrf; simp at hrf
+        simp only [hfrac, hnr, Bool.not_false, Bool.and_self, ↓reduceIte] at hcap
+        simp only [hty, ↓reduceIte]; exact hcap
+      · have hfrac : (st.type == SegType.fractional) = false := by simpa using hty
+        simp only [hfrac, Bool.false_and, Bool.false_eq_true, ↓reduceIte] at hcap
+        simp only [hty, ↓reduceIte]; exact_mod_cast hcap
+    have hrg : (!rq.keys.all fun k => (joinRows st.frames (chanTable rq.segs none) k).all
+        fun r => frameInRange st.bitsStored d r.1) = false := by
+      rw [stack_range_ok st wf d _ _ (fun _ => hbound)]; rfl
+    simp only [hw', Bool.false_and, Bool.false_eq_true, ↓reduceIte, ofCode_code, hrg, hrf, pure, Except.pure]
     congr 2
     apply List.map_congr_left
     intro k _
     rw [stackRow_eq st wf.type wf.unique]
     apply List.map_congr_left
     intro s _
-    apply castFrame_plane st wf
-    unfold ceiling at hcap
-    simp only [hc, Bool.false_eq_true, ↓reduceIte] at hcap
-    by_cases hty : st.type = .fractional
-    · have hfrac : (st.type == SegType.fractional) = true := by simpa using hty
-      have hnr : rq.rescale = false := by
-        cases h : rq.rescale
-        · rfl
-        · rw [h, hfrac] at hrf; simp at hrf
-      simp only [hfrac, hnr, Bool.not_false, Bool.and_self, ↓reduceIte] at hcap
-      simp only [hty, ↓reduceIte]; exact hcap
-    · have hfrac : (st.type == SegType.fractional) = false := by simpa using hty
-      simp only [hfrac, Bool.false_and, Bool.false_eq_true, ↓reduceIte] at hcap
-      simp only [hty, ↓reduceIte]; exact_mod_cast hcap
-
+    exact castFrame_plane st wf d k s hbound
 
 end HdVerif.SegReadLemmas
